@@ -1,1 +1,152 @@
-fn main(){}
+#![allow(dead_code)]
+//! hx — model-checking harness for rubato (see /verif/DESIGN.md).
+//!
+//!   hx check  <ID> <quick|thorough>            run a check (parent: spawns workers)
+//!   hx worker <ID> <tier> <shard> <n> [...]    internal
+//!   hx replay <path>                           re-execute a recorded violation
+//!   hx one    <ID> '<cfg json>' '<history>'    run one history with the monitors of <ID>
+
+mod alloc;
+mod any;
+mod cfg;
+mod ctrl;
+mod explore;
+mod frame;
+mod kf;
+mod ops;
+mod probe;
+mod run;
+mod track;
+
+use frame::{Check, Tier};
+use serde_json::Value;
+
+#[global_allocator]
+static GLOBAL: alloc::Counting = alloc::Counting;
+
+fn registry() -> Vec<Box<dyn Check>> {
+    vec![
+        Box::new(ctrl::CtrlCheck { id: "C03" }),
+        Box::new(ctrl::CtrlCheck { id: "C04" }),
+        Box::new(ctrl::CtrlCheck { id: "C06" }),
+        Box::new(ctrl::CtrlCheck { id: "C09" }),
+        Box::new(ctrl::CtrlCheck { id: "C13" }),
+    ]
+}
+
+fn find(id: &str) -> Option<Box<dyn Check>> {
+    registry().into_iter().find(|c| c.id() == id)
+}
+
+fn usage() -> ! {
+    eprintln!("usage: hx check <ID> <quick|thorough> | hx replay <path> | hx one <ID> <cfg-json> <history>");
+    std::process::exit(2)
+}
+
+fn main() {
+    run::install_panic_hook();
+    let args: Vec<String> = std::env::args().collect();
+    if args.len() < 2 {
+        usage();
+    }
+    let exe = std::env::current_exe()
+        .map(|p| p.to_string_lossy().to_string())
+        .unwrap_or_else(|_| args[0].clone());
+    match args[1].as_str() {
+        "check" => {
+            if args.len() < 4 {
+                usage();
+            }
+            let check = find(&args[2]).unwrap_or_else(|| {
+                eprintln!("unknown check {}", args[2]);
+                std::process::exit(2)
+            });
+            let tier = Tier::parse(&args[3]).unwrap_or_else(|| usage());
+            let out = frame::run_check(check.as_ref(), tier, &exe);
+            std::process::exit(out.exit);
+        }
+        "worker" => {
+            if args.len() < 6 {
+                usage();
+            }
+            let check = find(&args[2]).unwrap_or_else(|| std::process::exit(2));
+            let tier = Tier::parse(&args[3]).unwrap_or_else(|| usage());
+            let shard: usize = args[4].parse().unwrap_or(0);
+            let n: usize = args[5].parse().unwrap_or(1);
+            let mut resume = None;
+            let mut only = None;
+            let mut journal = None;
+            let mut i = 6;
+            while i + 1 < args.len() {
+                match args[i].as_str() {
+                    "--resume-after" => resume = args[i + 1].parse().ok(),
+                    "--only" => only = args[i + 1].parse().ok(),
+                    "--journal" => journal = Some(args[i + 1].clone()),
+                    _ => {}
+                }
+                i += 2;
+            }
+            std::process::exit(frame::worker(check.as_ref(), tier, shard, n, resume, only, journal));
+        }
+        "replay" => {
+            if args.len() < 3 {
+                usage();
+            }
+            let text = std::fs::read_to_string(&args[2]).unwrap_or_else(|e| {
+                eprintln!("{}: {}", args[2], e);
+                std::process::exit(2)
+            });
+            let v: Value = serde_json::from_str(&text).unwrap_or_else(|e| {
+                eprintln!("{}: {}", args[2], e);
+                std::process::exit(2)
+            });
+            let id = v["property"].as_str().unwrap_or("");
+            let check = find(id).unwrap_or_else(|| {
+                eprintln!("unknown property {}", id);
+                std::process::exit(2)
+            });
+            match check.replay(&v) {
+                Ok((bad, log)) => {
+                    println!("replay of {} ({} {})", args[2], id, v["cfg"]);
+                    print!("{}", log);
+                    if bad {
+                        println!("VIOLATION property={} replay={}", id, args[2]);
+                        std::process::exit(1);
+                    }
+                    println!("no violation of {} on this tree", id);
+                }
+                Err(e) => {
+                    eprintln!("replay failed: {}", e);
+                    std::process::exit(2);
+                }
+            }
+        }
+        "one" => {
+            if args.len() < 5 {
+                usage();
+            }
+            let check = find(&args[2]).unwrap_or_else(|| std::process::exit(2));
+            let cfgv: Value = serde_json::from_str(&args[3]).unwrap_or_else(|e| {
+                eprintln!("cfg: {}", e);
+                std::process::exit(2)
+            });
+            let v = serde_json::json!({"property": args[2], "cfg": cfgv, "history": args[4]});
+            match check.replay(&v) {
+                Ok((bad, log)) => {
+                    print!("{}", log);
+                    std::process::exit(if bad { 1 } else { 0 });
+                }
+                Err(e) => {
+                    eprintln!("{}", e);
+                    std::process::exit(2);
+                }
+            }
+        }
+        "items" => {
+            let check = find(&args[2]).unwrap_or_else(|| std::process::exit(2));
+            let tier = Tier::parse(&args[3]).unwrap_or_else(|| usage());
+            println!("{}", check.n_items(tier));
+        }
+        _ => usage(),
+    }
+}
